@@ -55,7 +55,12 @@ def setup():
         raise HarnessError("imported pyspike from %s, expected under %s" % (here, REPO))
     pyspike.disable_backend_warning = True
     from . import pyxshim
-    shim = pyxshim.Shim(REPO)
+    try:
+        shim = pyxshim.Shim(REPO)
+    except pyxshim.ShimError as e:
+        print("WARNING: the .pyx kernels could not be transliterated (%s); the 'compiled' "
+              "configuration is unavailable, its cases run on the pure-Python fallback" % e)
+        shim = pyxshim.DeadShim(str(e))
     # deterministic np.empty for the pure-Python kernels as well
     import pyspike.cython.python_backend as pb
     pb.np = pyxshim.NP_PROXY
